@@ -118,6 +118,24 @@ Scheme JValue_min := Minimality for JValue Sort Prop
   with JMembers_min := Minimality for JMembers Sort Prop.
 Combined Scheme JValue_mutind from JValue_min, JElems_min, JMembers_min.
 
+(* ---- what the serialiser theorems quantify over ---- *)
+(* every code point of a string is at most 0x10FFFF (always true of a Rust String) *)
+Definition str_ok (s : str) : Prop := Forall (fun c => c <= 0x10ffff) s.
+
+Section Serialisable.
+  Variable F : Type.
+  Variable ffinite : F -> Prop.          (* f64::is_finite *)
+  (* all numbers finite, all strings and keys made of code points *)
+  Fixpoint serialisable (v : value F) : Prop :=
+    match v with
+    | VNum x => ffinite x
+    | VStr s => str_ok s
+    | VArr l => fold_right (fun x a => serialisable x /\ a) True l
+    | VObj m => fold_right (fun kv a => match kv with (k, x) => str_ok k /\ serialisable x /\ a end) True m
+    | _ => True
+    end.
+End Serialisable.
+
 (* the texts whose surrogate escapes are all paired, with the value they denote *)
 Definition JText {F} (fparse : str -> option F) : str -> value F -> Prop := JTextG F fparse false.
 (* RFC 8259 syntax in full (unpaired surrogate escapes admitted) *)
